@@ -210,4 +210,83 @@ def checkSignatureFromKey (key : Key) (algo : Nat) (signed sig : Bytes) (oracle 
     | none => .err
     | some digest => dispatchKey key algo h digest sig oracle
 
+/-! ### the signer side: `signingParamsForPublicKey` (x509 and ocsp), `GetSignatureAlgorithmFromAI`, signer options -/
+
+/-- `pkix.AlgorithmIdentifier.Parameters` as the signer side produces it: the zero `RawValue`, `asn1.NullRawValue`
+    (`RawValue{Tag: 5}`), or `rsaPSSParameters(h)`. -/
+inductive Params where
+  | absent
+  | null
+  | pss (h : Nat)
+  deriving Repr, DecidableEq
+
+/-- what `signingParamsForPublicKey` returns: `hashFunc`, `sigAlgo.Algorithm`, `sigAlgo.Parameters` -/
+structure SignParams where
+  hash : Nat
+  oid : List Nat
+  params : Params
+  deriving Repr, DecidableEq
+
+/-- the two copies of the function (x509/x509.go, x509/revocation/ocsp/ocsp.go) differ in their tables (generated) and in
+    that only x509 knows RSA-PSS (`requestedSigAlgo.isRSAPSS()`). -/
+structure SignPkg where
+  details : List (Nat × List Nat × String × Nat)
+  defaults : List (String × String × Nat × List Nat × Bool × Bool)
+  pssAware : Bool
+
+def x509Pkg : SignPkg := ⟨Gen.C03.x509DetailsOid, Gen.C03.x509SignDefaults, true⟩
+def ocspPkg : SignPkg := ⟨Gen.C03.ocspDetailsOid, Gen.C03.ocspSignDefaults, false⟩
+
+/-- `rsaPSSParameters(h)`: `none` = the function panics (no OID for the hash: `asn1.Marshal` fails) -/
+def pssParamsOf (h : Nat) : Option (List Nat × Nat) := (Gen.C03.pssParams.find? (fun r => r.1 == h)).map (·.2)
+
+/-- `signingParamsForPublicKey(pub, requestedSigAlgo)`.  `label` = the arm of the type switch (and of the nested curve
+    switch) the key falls into, as the generated table names it; a key of any other type / curve is an error.
+    Order of the code: defaults per key type; `requested == 0` returns them; otherwise the FIRST details row of the
+    requested algorithm: key-algorithm mismatch → error; hash 0 (MD2) while the key type hashes → error; RSA-PSS →
+    parameters from `rsaPSSParameters`; no row → error. -/
+def signingParams (pkg : SignPkg) (label : String) (req : Nat) : Res SignParams :=
+  match pkg.defaults.find? (fun r => r.1 == label) with
+  | none => .err
+  | some (_, fam, h, oid, nullP, shouldHash) =>
+    let par : Params := if nullP then .null else .absent
+    if req = 0 then .ok ⟨h, oid, par⟩
+    else match pkg.details.find? (fun r => r.1 == req) with
+      | none => .err
+      | some (_, oid', fam', h') =>
+        if fam' != fam then .err
+        else if h' = 0 && shouldHash then .err
+        else if pkg.pssAware && isPSS req then
+          (match pssParamsOf h' with
+           | some _ => .ok ⟨h', oid', .pss h'⟩
+           | none => .panic)
+        else .ok ⟨h', oid', par⟩
+
+/-- `x509.GetSignatureAlgorithmFromAI` on an identifier whose parameters are one of the three shapes the signer side
+    produces: any OID but `oidSignatureRSAPSS` → the first details row with that OID (parameters are not looked at);
+    `oidSignatureRSAPSS` → the parameters are parsed (zero / NULL `RawValue` have no `FullBytes`: Unknown). -/
+def algoFromAI (oid : List Nat) (par : Params) : Nat :=
+  if oid != Gen.C03.pssOid then
+    match Gen.C03.x509DetailsOid.find? (fun r => r.2.1 == oid) with
+    | some r => r.1
+    | none => 0
+  else match par with
+    | .pss h => (match pssParamsOf h with
+                 | some r => r.2
+                 | none => 0)
+    | _ => 0
+
+/-- ocsp `getSignatureAlgorithmFromOID` -/
+def algoFromOID (oid : List Nat) : Nat :=
+  match Gen.C03.ocspDetailsOid.find? (fun r => r.2.1 == oid) with
+  | some r => r.1
+  | none => 0
+
+/-- the `crypto.SignerOpts` CreateCertificate / CreateCertificateRequest / CreateRevocationList hand to the signer:
+    (`*rsa.PSSOptions` with salt length = hash length?, hash).  CreateCRL always requests 0. -/
+def signerOpts (req h : Nat) : Bool × Nat := (req != 0 && isPSS req, h)
+
+/-- `ocsp.CreateResponse` passes the bare hash -/
+def signerOptsOcsp (h : Nat) : Bool × Nat := (false, h)
+
 end ZV.C03
